@@ -89,6 +89,7 @@ func (d Decimal) LessThan(d2 Decimal) bool
 func (d Decimal) GreaterThan(d2 Decimal) bool
 func (d Decimal) String() string
 func (d Decimal) StringFixed(places int32) string
+func (d Decimal) Shift(shift int32) Decimal
 `,
 	"sort": `package sort
 func Search(n int, f func(int) bool) int
@@ -100,6 +101,14 @@ func Sprintf(format string, a ...any) string
 	"strings": `package strings
 func ReplaceAll(s, old, new string) string
 func Repeat(s string, count int) string
+func Index(s, substr string) int
+type Builder struct{ _ int }
+func (b *Builder) WriteString(s string) (int, error)
+func (b *Builder) WriteRune(r rune) (int, error)
+func (b *Builder) String() string
+`,
+	"unicode": `package unicode
+func IsDigit(r rune) bool
 `,
 	"unicode/utf8": `package utf8
 func RuneCountInString(s string) int
